@@ -180,7 +180,7 @@ int main(int argc, char **argv) {
     }
     int cur = 0, variant = 0, curvariant = 0;
     unsigned char *mem = NULL;
-    qhasharr_t *T = NULL;
+    qhasharr_t *T = NULL, *S = NULL;       /* S: a second long-lived handle attached to the same region; calls alternate between the two */
     char line[256], op[32];
     vh_buf b = {0};
     long mark = 0;
@@ -188,7 +188,7 @@ int main(int argc, char **argv) {
         char *got = fgets(line, sizeof line, in);
         if (!got || !strncmp(line, "reset", 5)) {
             if (T) {
-                T->free(T);
+                T->free(T); if (S) { S->free(S); S = NULL; }
                 memset(mem, 0xDD, msz);                      /* the region is gone too: copies must not depend on it */
                 int cok = check_kept();
                 vh_emit("{\"op\":\"free\",\"a\":0,\"vid\":0,\"len\":0,\"live\":%ld,\"copies_ok\":%s}", vh_live_since(mark), vh_bool(cok));
@@ -229,6 +229,7 @@ int main(int argc, char **argv) {
             memset(arena[cur], 0xC7, mapsz);
             T = qhasharr(mem, msz);
             if (!T) return 2;
+            S = qhasharr(mem, 0);
             vh_bprintf(&b, "{\"op\":\"reset\",\"a\":0,\"vid\":0,\"len\":0,\"n\":%d,\"homes\":[", N);
             for (int k = 1; k <= NK; k++) vh_bprintf(&b, "%s%d", k > 1 ? "," : "", home[k]);
             vh_bprintf(&b, "],\"d1\":%d,\"d2\":%d}", D1, D2);
@@ -259,6 +260,9 @@ int main(int argc, char **argv) {
                 strget = pd && valid_of(pd, psz) == 5;
                 free(pd);
             }
+            /* the call goes through one of the two handles on this region: nothing that decides a lookup may live in a handle */
+            qhasharr_t *P = T;
+            if (S && ((((uint32_t) vh_step * 2246822519u) >> 16) & 1)) T = S;
             errno = 0;
             vh_call_begin();
             if (inject) { if (inj_at) vh_fail_at = kk; else vh_fail_from = kk; }
@@ -281,6 +285,7 @@ int main(int argc, char **argv) {
             long nfail = vh_failed;
             vh_call_end();
             alarm(0);
+            T = P;
             if (v) { memset(v, 0xA5, (size_t) len); vh_free(v); }
             if (kb) { memset(kb, 0xA5, (size_t) keylen[a]); vh_free(kb0); }
             int gok = canary_ok(mem, curvariant);
@@ -289,6 +294,8 @@ int main(int argc, char **argv) {
             /* observations through the handle that did the mutation ... */
             vh_where = "observe"; vh_watchdog(6);
             observe(&b, T, "");
+            vh_bprintf(&b, ",");
+            if (S) observe(&b, S, "s"); else vh_bprintf(&b, "\"ssize\":[-1,-1,-1],\"sgets\":[],\"swalk\":[]");
             vh_bprintf(&b, ",");
             image(&b, mem);
             /* ... and through a second handle attached to a copy elsewhere while the original is inaccessible */
@@ -309,6 +316,8 @@ int main(int argc, char **argv) {
             if ((vh_step % 3) == 0 && T2) {
                 /* every third step the roles swap: operation continues on the copy through the attached handle */
                 T->free(T); T = T2; cur = other; mem = copy; curvariant = variant;
+                if (S) S->free(S);
+                S = qhasharr(mem, 0);
             } else if (T2) T2->free(T2);
             if (!inject || nfail == 0 || ok ) break;
         }
